@@ -39,7 +39,7 @@ func (p *c03) Run(w *lib.Worker, idx int, r *lib.Rand) lib.Case {
 	if p.session == nil {
 		p.session = sut.NewSpecSession()
 	}
-	g := &gen.SpecGen{R: r, Tag: fmt.Sprintf("x%d", idx), NoRefs: idx%3 == 1}
+	g := &gen.SpecGen{R: r, Tag: fmt.Sprintf("x%d", idx%4), NoRefs: idx%3 == 1}
 	doc := g.Clean()
 	// two cases out of five carry a legal enrichment (shapes which sit next to a rule without breaking it)
 	enrich := ""
@@ -69,6 +69,7 @@ func (p *c03) Run(w *lib.Worker, idx int, r *lib.Rand) lib.Case {
 		c.Tags = append(c.Tags, "enrichment:"+enrich)
 	}
 	for _, cfg := range specConfigs {
+		cfg.SkipSchemata = idx%3 == 0 // whether schemata are recorded must not matter to any rule
 		o := sut.ValidateSpec(text, cfg)
 		sample := map[string]any{"document": string(text), "fault": fault, "enrichment": enrich, "config": fmt.Sprintf("%+v", cfg), "outcome": o}
 		if !o.Loaded {
@@ -135,6 +136,7 @@ var c03KnownMissing = map[string]string{
 	"array-no-items-referenced-response-typelist": "array-items-rule-skips-referenced-responses",
 	"two-body-params-go-name-collision":           "go-name-collision-drops-parameter",
 	"array-empty-nested-items-header":             "array-items-rule-skips-nested-header-items",
+	"dup-param-path-item-level":                   "path-item-parameters-not-checked-for-uniqueness",
 }
 
 // onlyLiteralXOverlap: every error is the overlap message between <base>/{id} and <base>/X.
